@@ -360,6 +360,7 @@ def step0 (s : St) : Label → Option St
   -- ───────────── critical sections ─────────────
   | .start =>
     if s.reader ≠ .start then none
+    else if s.done then some (tail { s with reader := .gone })   -- already closed: no reader is started
     else some (tail { s with reading := true, reader := .read })
   | .n1 w =>
     match getNotif s w with
